@@ -333,6 +333,13 @@ func (o *structFieldsCBOR) FromCBOR(dm cbor.DecMode, data []byte) error {
 	}
 
 	if mapLen != 0 {
+		// each entry takes at least two bytes (key and value), so the
+		// declared length cannot exceed what the remaining input can
+		// hold; do not pre-allocate based on an untrusted length.
+		if mapLen > len(rest)/2 {
+			return errors.New("unexpected EOF")
+		}
+
 		o.Fields = make(map[int]cbor.RawMessage, mapLen)
 
 		for i := 0; i < mapLen; i++ {
